@@ -442,6 +442,16 @@ def run_shard(spec):
                 except (RS.SchemaError, KeyError):
                     pass
             sh.run_case(check_mutant, mjs, kind, depth, js)
+            if rng.random() < 0.25 and '"record"' in json.dumps(mjs):
+                # the same ill-formed schema with its records declared as the kind "error"
+                from ..gen.schema import errorize
+                try:
+                    ejs = errorize(mjs, rng, 1.0)
+                except Exception:
+                    ejs = None
+                if ejs is not None and ejs != mjs:
+                    sh.count("mutants_error_kind")
+                    sh.run_case(check_mutant, ejs, kind, depth, js)
             if i % 200 == 1:
                 sh.sample({"mutant": kind, "schema": mjs})
     return sh.result()
